@@ -26,7 +26,54 @@ fn per_entry(tier: Tier) -> u64 {
 }
 
 fn jobs(plan: &Plan) -> Vec<Job> {
-    entry_jobs(plan, "C01", "roundtrip", per_entry(plan.tier), |_| true)
+    let mut v = entry_jobs(plan, "C01", "roundtrip", per_entry(plan.tier), |_| true);
+    if plan.tier != Tier::Miri {
+        // statistics-gathering regions have internal sizes of their own: many distinct values
+        for (h, _) in MANY_DISTINCT.iter().enumerate() {
+            v.push(super::standalone("codec-dict", "many-distinct", h as u64, many_distinct_bytes));
+            v.push(super::standalone("string<codec-dict>", "many-distinct", h as u64, many_distinct_strings));
+        }
+    }
+    v
+}
+
+const MANY_DISTINCT: [usize; 7] = [255, 257, 511, 512, 513, 1024, 1500];
+
+fn many_distinct<E: Entry>(ctx: &mut Ctx, make: impl Fn(usize) -> E::V) {
+    let d = MANY_DISTINCT[ctx.hist_no as usize];
+    let mut live = Live::<E>::new("r");
+    ctx.log(format!("{} distinct values, each pushed twice (round robin), into {}", d, E::label()));
+    let mut aux = <E::R as Default>::default();
+    for k in 0..2 * d + 5 {
+        let v = make(k % d);
+        let r = &mut live.r;
+        match crate::panics::catch(|| E::push(r, &v, 0, &mut aux)) {
+            Ok(idx) => live.issued.push((idx, v)),
+            Err(p) => {
+                ctx.log(format!("push #{k} PANICKED"));
+                ctx.fail_panic("push", &p);
+                break;
+            }
+        }
+        let n = live.issued.len();
+        if !live.check_one(ctx, n - 1, Lvl::BASIC, "roundtrip") {
+            break;
+        }
+    }
+    if !ctx.failed {
+        live.check_all(ctx, Lvl::BASIC, "roundtrip");
+    }
+    ctx.count("pushes_verified", live.issued.len() as u64);
+    ctx.nontrivial = true;
+    ctx.end_history();
+}
+
+fn many_distinct_bytes(ctx: &mut Ctx) {
+    many_distinct::<crate::catalogue::ECodecDict>(ctx, |i| format!("v{i:05}").into_bytes());
+}
+
+fn many_distinct_strings(ctx: &mut Ctx) {
+    many_distinct::<crate::catalogue::EStringDict>(ctx, |i| format!("é{i:05}"));
 }
 
 fn required(plan: &Plan) -> Vec<String> {
